@@ -173,6 +173,33 @@ def process_transforms(ck, m):
         cmp("predef_inverse/" + tname, outs["predef_inverse/" + tname], model["predef_inverse"], case0)
         cmp("jac/" + tname, outs["jac/" + tname], model["jac"], case0)
 
+    # ---- the same closed forms on integer-valued points passed with an integer dtype and as Python scalars (ints and
+    #      floats): equal to the float-array path, and the round trip returns the point
+    ia, ib = np.meshgrid(np.arange(1, 13), np.arange(1, 13), indexing="ij")
+    ia, ib = ia.ravel(), ib.ravel()
+    with np.errstate(all="ignore"):
+        for fwd, inv in pairs:
+            ref = tuple(np.asarray(v, dtype=float) for v in getattr(vt, fwd)(ia.astype(float), ib.astype(float)))
+            for how in ("int64 ndarray", "python int scalars", "python float scalars"):
+                ck.count("A_input=" + how)
+                try:
+                    if how == "int64 ndarray":
+                        got = tuple(np.asarray(v, dtype=float) for v in getattr(vt, fwd)(ia.astype(np.int64), ib.astype(np.int64)))
+                    else:
+                        conv = int if how == "python int scalars" else float
+                        vals = [getattr(vt, fwd)(conv(u), conv(v)) for u, v in zip(ia, ib)]
+                        got = (np.array([float(q[0]) for q in vals]), np.array([float(q[1]) for q in vals]))
+                    back = getattr(vt, inv)(got[0], got[1])
+                    err = max(float(np.max(np.abs(np.asarray(back[0]) - ia) / ia)), float(np.max(np.abs(np.asarray(back[1]) - ib) / ib)))
+                    msg = None if err <= 1e-9 else f"round trip error {err:.3e}"
+                    same = bits_equal(got[0], ref[0]) and bits_equal(got[1], ref[1])
+                except Exception as e:  # noqa: BLE001
+                    msg, same = f"{type(e).__name__}: {e}", True
+                if msg:
+                    ck.fail({"entry": "variable_transform." + fwd, "predicate": "inverse_of_transform_is_identity",
+                             "input_class": how}, dict(case0, input=how), f"{fwd} on the integer points 1..12 x 1..12 passed as {how}: {msg}")
+                elif not same:
+                    ck.diverge("transform:" + fwd, dict(case0, input=how), f"{fwd}: result for {how} differs from the float-array result")
     # ---- oracle on the real code: round trips (condition-aware), Jacobian = |det dT/dx|
     def rt_fail(name, i, got, want, tol):
         ck.fail({"entry": "variable_transform." + name, "predicate": "inverse_of_transform_is_identity"},
@@ -264,6 +291,10 @@ class StubBase:
         out = np.stack(cols, axis=1)
         self.drawn.append((n, random_state, out.copy()))
         return out
+
+    def fit(self, data, *args, **kwargs):
+        self.fit_calls = getattr(self, "fit_calls", []) + [(np.array(data, dtype=float), args, kwargs)]
+        return "fitted"
 
     def tokens(self):
         return [str(f2b(v)) for v in self.p]
@@ -367,6 +398,19 @@ def process_stub(ck, case):
         bad.append(("empirical_cdf_is_fraction_of_rows_below", f"{ecdf.tolist()} expected {want_e.tolist()}"))
     for pred, detail in bad:
         ck.fail({"entry": "TransformedModel", "predicate": pred}, case, detail)
+    # fit: the data are in the transformed model's space; the base model is fitted to transform(data), further
+    # arguments are handed on (model = the one-line composition; no clause of the property speaks about fit)
+    try:
+        ret = t.fit(pts.copy(), "fit-description", flag=7)
+        fc = getattr(base, "fit_calls", [])
+        if not (len(fc) == 1 and bits_equal(fc[0][0], Tx) and fc[0][1] == ("fit-description",) and fc[0][2] == {"flag": 7}
+                and ret == "fitted"):
+            if not bad:
+                ck.diverge("tmodel-fit", case, f"TransformedModel.fit(data, 'fit-description', flag=7): base.fit calls "
+                           f"{[(c[0][:2].tolist(), c[1], c[2]) for c in fc]}, model: one call with transform(data) = {Tx[:2].tolist()}")
+    except Exception as e:  # noqa: BLE001
+        if not bad:
+            ck.diverge("tmodel-fit", case, f"TransformedModel.fit raised {type(e).__name__}: {e}")
     # ---- Lean
     lines = ["CLEAR"]
     if cube == "table":
@@ -414,12 +458,17 @@ def process_stub_cached_sample(ck, rng):
                 f"base draws {[q[0] for q in base.drawn]}, values {p1.tolist()} / {p2.tolist()}")
 
 
-def process_stub_iform(ck, rng):
+def process_stub_iform(ck, rng, rs=None, given_case=None):
     """IFORM over the stub model: every Monte-Carlo step must be driven by the model's random_state
     (the recording base model sees the random_state of each draw), and two runs must agree bit for bit."""
     virocon, _, _, _ = V()
-    case = make_stub_case(rng, n_dim=2, triple="stub")
-    case.update(gen="stub-iform", rs=int(rng.integers(0, 2 ** 31)), alpha=float(rng.choice([0.05, 0.01])), n_points=int(rng.choice([4, 6])))
+    if given_case is not None:
+        case = dict(given_case)
+    else:
+        case = make_stub_case(rng, n_dim=2, triple="stub")
+        drawn_rs = int(rng.integers(0, 2 ** 31))
+        case.update(gen="stub-iform", rs=drawn_rs if rs is None else rs, alpha=float(rng.choice([0.05, 0.01])), n_points=int(rng.choice([4, 6])))
+    ck.count("B_stub_iform_random_state=" + ("0" if case["rs"] == 0 else "int"))
     base, t, k, cube, _ = build_stub(case)
     ck.case(case, nontrivial=True, sample=False)
     ck.count("B_stub_iform")
@@ -452,6 +501,257 @@ def process_stub_iform(ck, rng):
             or len(seen) != 2 * case["n_points"]:
         ck.diverge("iform-stream-selection", case, f"random_state {case['rs']}: base.draw_sample saw {seeds_marg}, "
                                                    f"conditional_sample saw {seen[:4]}... ({len(seen)} calls); model: all equal to the seed")
+
+
+# =========================================================================== (F) Monte-Carlo sample sizes, stubbed samplers
+
+def _fake_sample(n_dim, m=64):
+    """a tiny 'sample' whose column j announces itself (1000 (j+1) + 0..m-1): which column a quantile was taken
+    from is visible in the result"""
+    return np.stack([1000.0 * (j + 1) + np.arange(m, dtype=float) for j in range(n_dim)], axis=1)
+
+
+def _fake_cond(given):
+    """a tiny conditional 'sample' that depends on the conditioning values it was asked for"""
+    return np.linspace(1.0, 2.0, 50) + 10.0 * float(np.sum(np.atleast_1d(given)))
+
+
+def _container(vals, form):
+    if form == "list":
+        return [float(v) for v in vals]
+    if form == "scalar":
+        return float(vals[0])
+    return np.array(vals, dtype=float)
+
+
+def gen_size_cases(rng, n):
+    """(p, precision_factor) combinations of the quantifier (precision_factor in [0.1, 1]) incl. probabilities whose
+    sample size leaves the 100000 floor (p_small 1e-4 .. 1e-7) - no sample of that size is ever drawn"""
+    smalls = [1e-4, 2e-5, 1e-5, 1e-6, 3e-7, 1e-7]
+    for k in range(n):
+        n_dim = 2 if k % 3 else 3
+        pf = float(rng.choice([0.1, 0.1, 0.25, 0.5, 1.0, 1.0, float(np.round(rng.uniform(0.1, 1.0), 3))]))
+        m = int(rng.integers(1, 6))
+        ps = []
+        for _ in range(m):
+            r = int(rng.integers(0, 5))
+            if r == 0:
+                ps.append(float(rng.choice(smalls)))
+            elif r == 1:
+                ps.append(1.0 - float(rng.choice(smalls)))
+            elif r == 2:
+                ps.append(float(rng.uniform(0.001, 0.999)))
+            elif r == 3:
+                ps.append(float(10 ** rng.uniform(-7, -1)))
+            else:
+                ps.append(float(rng.choice([0.5, 0.3, 0.9, 0.999])))
+        form = str(rng.choice(["ndarray", "list", "scalar"]))
+        if form == "scalar":
+            ps = ps[:1]
+        yield {"part": "F", "n_dim": n_dim, "dim": int(rng.integers(0, n_dim)), "pf": pf, "p": ps, "p_as": form,
+               "pf_passed": str(rng.choice(["keyword", "positional", "default"])),
+               "rs": [None, 0, int(rng.integers(1, 2 ** 31))][int(rng.integers(0, 3))],
+               "model": make_stub_case(rng, n_dim=n_dim, triple="stub"), "fail_at": int(rng.integers(-1, len(ps)))}
+
+
+def process_sizes(ck, case):
+    """sample sizes requested by marginal_icdf / conditional_icdf / conditional_cdf of a real TransformedModel whose
+    two samplers (draw_sample, conditional_sample) are replaced by recorders: the size `n`, the random_state and the
+    conditioning values handed over are compared with Model/McSize.lean and with the documented rule; the returned
+    quantiles show which column / which conditioning value was used"""
+    _, _, jm, _ = V()
+    base, t, k, cube, _ = build_stub(case["model"])
+    n_dim, dim, pf, ps = case["n_dim"], case["dim"], case["pf"], case["p"]
+    if case["pf_passed"] == "default":
+        pf = 1.0
+    rec = []
+
+    def fake_draw(n, *a, random_state=None, **kw):
+        rec.append(("draw", n, random_state))
+        return _fake_sample(n_dim)
+
+    def fake_cond(n, d, given, *a, random_state=None, **kw):
+        rec.append(("cond", n, d, np.array(given, dtype=float).ravel().tolist(), random_state))
+        if len(rec_fail) and rec_fail[0] == sum(1 for r in rec if r[0] == "cond") - 1:
+            raise jm.CouldNotSampleError("recorder: no sample for this conditioning value")
+        return _fake_cond(given)
+
+    rec_fail = []
+    t.draw_sample = fake_draw
+    t.conditional_sample = fake_cond
+    ck.case(case, nontrivial=min(min(ps), 1 - max(ps)) * 100000 < 100 * pf, sample=ck.dist.get("part=F", 0) < 1)
+    ck.count("part=F")
+    ck.count("F_precision_factor=" + (str(case["pf"]) if case["pf"] in (0.1, 0.25, 0.5, 1.0) else "other"))
+    ck.count("F_p_as=" + case["p_as"])
+    ck.count(f"F_ndim={n_dim}_dim={dim}")
+    bad, div = [], []
+    p_arg = _container(ps, case["p_as"])
+    pl = [float(v) for v in np.atleast_1d(np.asarray(p_arg, dtype=float))]
+    # ---- marginal_icdf
+    try:
+        with np.errstate(all="ignore"):
+            if case["pf_passed"] == "keyword":
+                xm = t.marginal_icdf(p_arg, dim, precision_factor=pf, random_state=case["rs"])
+            elif case["pf_passed"] == "positional":
+                xm = t.marginal_icdf(p_arg, dim, pf, random_state=case["rs"])
+            else:
+                xm = t.marginal_icdf(p_arg, dim, random_state=case["rs"])
+    except Exception as e:  # noqa: BLE001
+        bad.append(("marginal_icdf", "returns", f"{type(e).__name__}: {e}"))
+        xm = None
+    draws = [r for r in rec if r[0] == "draw"]
+    n_marg = None
+    if xm is not None:
+        if len(draws) != 1 or [r for r in rec if r[0] == "cond"]:
+            div.append(f"marginal_icdf: sampler calls {[(r[0], r[1]) for r in rec]}, model: one draw_sample")
+        else:
+            n_marg = draws[0][1]
+            p_small = min(min(pl), 1 - max(pl))
+            if n_marg > 100000:
+                ck.count("F_marginal_n_above_floor")
+            # documented: "on average precision_factor * 100 realizations exceed the quantile. Minimum sample size is 100000"
+            if not (isinstance(n_marg, (int, np.integer)) and n_marg >= 100000
+                    and p_small * n_marg >= 100 * pf * (1 - 1e-9) - p_small - 1e-9):
+                bad.append(("marginal_icdf", "sample_size_gives_documented_exceedances",
+                            f"marginal_icdf(p={ps}, precision_factor={pf}) drew a sample of n = {n_marg!r}: expected "
+                            f"exceedances p_small*n = {p_small * n_marg!r}, documented precision_factor*100 = {100 * pf!r} "
+                            f"(minimum sample size 100000)"))
+            if draws[0][2] is not case["rs"] and draws[0][2] != case["rs"]:
+                div.append(f"marginal_icdf(random_state={case['rs']!r}) handed random_state={draws[0][2]!r} to draw_sample")
+            want = np.quantile(_fake_sample(n_dim)[:, dim], p_arg)
+            if not bits_equal(np.atleast_1d(np.asarray(xm, dtype=float)), np.atleast_1d(np.asarray(want, dtype=float))):
+                bad.append(("marginal_icdf", "quantile_of_the_requested_dimension",
+                            f"marginal_icdf(p={ps}, dim={dim}) = {np.asarray(xm).tolist()}, the p-quantile of column {dim} of "
+                            f"the drawn sample is {np.asarray(want).tolist()} (column j holds 1000 (j+1) + 0..63)"))
+    # ---- conditional_icdf / conditional_cdf (one conditioning row per probability)
+    rec.clear()
+    givens = [[float(1 + i + 0.25 * j) for j in range(n_dim - 1)] for i in range(len(pl))]
+    g_arg = np.array(givens, dtype=float)
+    if case["fail_at"] >= 0:
+        rec_fail.append(case["fail_at"])
+        ck.count("F_could_not_sample_branch")
+    xc, n_cond = None, None
+    p_vec = pl if case["p_as"] == "list" else np.array(pl, dtype=float)
+    try:
+        with np.errstate(all="ignore"):
+            if case["pf_passed"] == "default":
+                xc = t.conditional_icdf(p_vec, dim, g_arg, random_state=case["rs"])
+            else:
+                xc = t.conditional_icdf(p_vec, dim, g_arg, precision_factor=pf, random_state=case["rs"])
+    except Exception as e:  # noqa: BLE001
+        bad.append(("conditional_icdf", "returns", f"{type(e).__name__}: {e}"))
+    conds = [r for r in rec if r[0] == "cond"]
+    if xc is not None:
+        if len(conds) != len(pl) or [r for r in rec if r[0] == "draw"]:
+            div.append(f"conditional_icdf: {len(conds)} conditional_sample calls for {len(pl)} probabilities")
+        else:
+            n_cond = [r[1] for r in conds]
+            if any(v > 100000 for v in n_cond):
+                ck.count("F_conditional_n_above_floor")
+            if any(v == 10000000 for v in n_cond):
+                ck.count("F_conditional_n_at_cap")
+            want = []
+            for i, (pv, r) in enumerate(zip(pl, conds)):
+                if r[2] != dim or r[3] != givens[i] or (r[4] is not case["rs"] and r[4] != case["rs"]):
+                    div.append(f"conditional_icdf element {i}: conditional_sample(dim={r[2]}, given={r[3]}, random_state={r[4]!r}), "
+                               f"model: dim={dim}, given={givens[i]}, random_state={case['rs']!r}")
+                    break
+                want.append(0.0 if i == case["fail_at"] else float(np.quantile(_fake_cond(givens[i]), pv)))
+            if not div and not bits_equal(np.asarray(xc, dtype=float), np.array(want)):
+                div.append(f"conditional_icdf values {np.asarray(xc).tolist()}, model (p_i-quantile of the sample for given_i; 0 after "
+                           f"CouldNotSampleError) {want}")
+    rec.clear()
+    rec_fail.clear()
+    x_ev = np.array([float(np.quantile(_fake_cond(g), 0.37)) for g in givens])
+    pc = None
+    try:
+        pc = t.conditional_cdf(x_ev, dim, g_arg, random_state=case["rs"])
+    except Exception as e:  # noqa: BLE001
+        bad.append(("conditional_cdf", "returns", f"{type(e).__name__}: {e}"))
+    n_cdf = [r[1] for r in rec if r[0] == "cond"]
+    if pc is not None:
+        want = np.array([(_fake_cond(g) <= xv).sum() / 100000 for g, xv in zip(givens, x_ev)])
+        if n_cdf != [100000] * len(givens) or not bits_equal(np.asarray(pc, dtype=float), want):
+            div.append(f"conditional_cdf: sample sizes {n_cdf}, values {np.asarray(pc).tolist()}; model: 100000 each, {want.tolist()}")
+    for entry, pred, detail in bad:
+        ck.fail({"entry": "MultivariateModel." + entry, "predicate": pred}, case, detail)
+    # ---- Lean: Model/McSize.lean on the same doubles
+    lines = [" ".join(["RUN", "c16nmarg", str(f2b(pf))] + fl(pl)), " ".join(["RUN", "c16ncond", str(f2b(pf))] + fl(pl)), "RUN c16ncdf"]
+    a_m, a_c, a_f = [a.split() for a in ck.driver.run(lines)]
+    if n_marg is not None and (a_m[0] != "OK" or int(a_m[1]) != int(n_marg)):
+        div.append(f"marginal_icdf(p={ps}, precision_factor={pf}): n = {n_marg}, model {' '.join(a_m)}")
+    if n_cond is not None and (a_c[0] != "OK" or [int(v) for v in a_c[2:]] != [int(v) for v in n_cond]):
+        div.append(f"conditional_icdf(p={ps}, precision_factor={pf}): n = {n_cond}, model {' '.join(a_c)}")
+    if n_cdf and [int(a_f[1])] * len(n_cdf) != [int(v) for v in n_cdf]:
+        div.append(f"conditional_cdf: n = {n_cdf}, model {a_f[1]}")
+    ck.hyp_checked += 3
+    if div and not bad:
+        ck.diverge("mc-sample-size", case, "; ".join(div[:3]))
+    elif div:
+        ck.count("divergence_with_oracle_failure")
+
+
+def process_sizes_iform(ck, rng, given_case=None):
+    """which sample sizes / random_state / conditioning values IFORMContour requests from a TransformedModel (both
+    samplers replaced by recorders): marginal step with the model's precision_factor, conditional steps with the
+    default precision_factor 1.0 (the code does not forward it there), all with the model's random_state"""
+    virocon, _, _, _ = V()
+    if given_case is not None:
+        case = dict(given_case)
+        alpha, pf, rs = case["alpha"], case["pf"], case["rs"]
+    else:
+        case = make_stub_case(rng, n_dim=2, triple="stub")
+        alpha = float(rng.choice([1e-2, 1e-3, 1e-4, 1e-6]))
+        pf = float(rng.choice([0.1, 0.5, 1.0]))
+        rs = [0, int(rng.integers(1, 2 ** 31)), "generator"][int(rng.integers(0, 3))]
+        case.update(part="F-iform", gen="sizes-iform", alpha=alpha, pf=pf, rs=rs, n_points=int(rng.choice([5, 8])))
+    _, vt, jm, _ = V()
+    base = StubBase(2, *case["base"])
+    T, I, J = stub_triple(2, case["k"])
+    rs_obj = np.random.default_rng(5) if rs == "generator" else rs
+    t = jm.TransformedModel(base, T, I, J, precision_factor=pf, random_state=rs_obj)
+    rec = []
+
+    def fake_draw(n, *a, random_state=None, **kw):
+        rec.append(("draw", n, random_state))
+        return _fake_sample(2)
+
+    def fake_cond(n, d, given, *a, random_state=None, **kw):
+        rec.append(("cond", n, d, np.array(given, dtype=float).ravel().tolist(), random_state))
+        return _fake_cond(given)
+
+    t.draw_sample, t.conditional_sample = fake_draw, fake_cond
+    ck.case(case, nontrivial=True, sample=False)
+    ck.count("part=F-iform")
+    ck.count("F_iform_random_state=" + ("generator" if rs == "generator" else "0" if rs == 0 else "int"))
+    try:
+        with np.errstate(all="ignore"), warnings.catch_warnings():
+            warnings.simplefilter("ignore")
+            c = np.asarray(virocon.IFORMContour(t, alpha, n_points=case["n_points"]).coordinates, dtype=float)
+    except Exception as e:  # noqa: BLE001
+        ck.fail({"entry": "IFORMContour(TransformedModel)", "predicate": "returns"}, case, f"{type(e).__name__}: {e}")
+        return
+    beta = sts.norm.ppf(1 - alpha)
+    phi = np.linspace(0, 2 * np.pi, case["n_points"], endpoint=False)
+    p0, p1 = sts.norm.cdf(beta * np.cos(phi)), sts.norm.cdf(beta * np.sin(phi))
+    lines = [" ".join(["RUN", "c16nmarg", str(f2b(pf))] + fl(p0)), " ".join(["RUN", "c16ncond", str(f2b(1.0))] + fl(p1))]
+    a_m, a_c = [a.split() for a in ck.driver.run(lines)]
+    draws = [r for r in rec if r[0] == "draw"]
+    conds = [r for r in rec if r[0] == "cond"]
+    d = None
+    same = lambda a: (a is rs_obj) if rs == "generator" else (a == rs_obj and a is not None)
+    if len(draws) != 1 or len(conds) != case["n_points"]:
+        d = f"{len(draws)} draw_sample and {len(conds)} conditional_sample calls, model 1 and {case['n_points']}"
+    elif int(draws[0][1]) != int(a_m[1]):
+        d = f"marginal step: n = {draws[0][1]}, model (precision_factor {pf} of the TransformedModel) {a_m[1]}"
+    elif [int(r[1]) for r in conds] != [int(v) for v in a_c[2:]]:
+        d = f"conditional steps: n = {[int(r[1]) for r in conds]}, model (precision_factor 1.0) {a_c[2:]}"
+    elif not same(draws[0][2]) or not all(same(r[4]) for r in conds):
+        d = f"random_state seen by the samplers {[draws[0][2]] + [r[4] for r in conds][:3]}..., the model's is {rs!r}"
+    elif not all(r[2] == 1 and r[3] == [float(c[i, 0])] for i, r in enumerate(conds)):
+        d = "conditional steps are not conditional_sample(dim=1, given=[coordinate 0 of the same contour point])"
+    if d:
+        ck.diverge("iform-mc-requests", case, d)
 
 
 # =========================================================================== EW Hs-steepness models
@@ -542,6 +842,26 @@ class HsS:
         al, be = self.s_pars(hs)
         s = self.F * hs / tz ** 2
         return self.ew_pdf(hs, *self.spec["hs"]) * self.ew_pdf(s, al, be, DELTA_S) * 2 * self.F * hs / tz ** 3
+
+    def hs_cdf_given_tz_table(self, tz):
+        """reference cdf of Hs given Tz = tz: f(hs | tz) is proportional to the closed-form joint density along hs;
+        integrated by the trapezoidal rule in log(hs) on 40000 points (relative error ~1e-7), returned as a function"""
+        from scipy.integrate import cumulative_trapezoid
+
+        v = np.linspace(math.log(1e-7), math.log(float(self.hs_icdf(1 - 1e-14)) * 1.5), 40000)
+        g = np.exp(v)
+        with np.errstate(all="ignore"):
+            f = np.asarray(self.joint_pdf_hs_tz(g, tz), dtype=float) * g
+        f = np.where(np.isfinite(f), f, 0.0)
+        F = cumulative_trapezoid(f, v, initial=0.0)
+        F = F / F[-1]
+
+        def cdf(x):
+            x = np.asarray(x, dtype=float)
+            with np.errstate(all="ignore"):
+                return np.interp(np.log(np.maximum(x, 1e-300)), v, F, left=0.0, right=1.0)
+
+        return cdf
 
     def joint_cdf(self, h, t):
         """P(Hs <= h, Tz <= t) by 1-D quadrature of f_hs(u) * P(Tz <= t | u)"""
@@ -747,24 +1067,42 @@ SIG_COND = "MultivariateModel.conditional_sample"
 CUT_CLASS = "conditioning quantile <= 0.99; sample follows the exact conditional truncated at the x_max the search returns"
 
 
-def cond_signature(q, cut=False):
-    if q >= 0.999:
-        return {"entry": SIG_COND, "predicate": "ks_vs_exact_conditional", "input_class": "conditioning quantile >= 0.999"}
+TAIL_CUT_CLASS = "conditioning quantile >= 0.999; sample follows the exact conditional truncated at the x_max the search returns"
+TAIL_NONE_CLASS = "conditioning quantile >= 0.999; no sample: the x_max the search returns lies below the conditional's mass"
+
+
+def cond_signature(q, cut=False, what=None, dim=1):
+    """what fails decides the class: `cut` = the sample is exactly the conditional truncated at the x_max the documented
+    search returns; what='none-below-mass' = nothing is accepted and the documented search explains it (its x_max lies
+    below the conditional's mass). Everything else - also in the far tail - has no known class."""
+    far = q >= 0.999
     if cut:
-        return {"entry": SIG_COND, "predicate": "ks_vs_exact_conditional", "input_class": CUT_CLASS}
-    return {"entry": SIG_COND, "predicate": "ks_vs_exact_conditional", "input_class": "conditioning quantile <= 0.99"}
+        cls = TAIL_CUT_CLASS if far else CUT_CLASS
+    elif what == "none-below-mass" and far:
+        cls = TAIL_NONE_CLASS
+    elif what is not None:
+        cls = f"conditioning quantile {'>= 0.999' if far else '<= 0.99'}; {what}"
+    else:
+        cls = "conditioning quantile >= 0.999; sample obtained, not the conditional truncated at the search's x_max" if far \
+            else "conditioning quantile <= 0.99"
+    if dim != 1:
+        cls = "Hs given Tz; " + cls
+    return {"entry": SIG_COND, "predicate": "ks_vs_exact_conditional", "input_class": cls}
 
 
-def ref_xmax(h, hs):
+def ref_xmax(h, hs, line=None):
     """the x_max the documented search (first 100*0.7^k whose JOINT density is >= 1e-7, floor 0.05) returns for the
-    conditional of Tz given hs, computed with the closed-form joint density (independent of the code under test)"""
+    conditional of Tz given hs (or along any other line `line(x)` of the joint density), computed with the closed-form
+    joint density (independent of the code under test)"""
     c = CONSTS
+    line = line or (lambda x: h.joint_pdf_hs_tz(hs, x))
     x = c["hi"]
-    while float(h.joint_pdf_hs_tz(hs, x)) < c["thr"]:
-        if x * c["mult"] > c["lo"]:
-            x = c["mult"] * x
-        else:
-            return c["lo"]
+    with np.errstate(all="ignore"):
+        while float(line(x)) < c["thr"]:
+            if x * c["mult"] > c["lo"]:
+                x = c["mult"] * x
+            else:
+                return c["lo"]
     return x
 
 
@@ -780,65 +1118,114 @@ def probe_sampler(t, dim, given, n=200):
 
 
 def process_conditional_stat(ck, case):
-    """case: {part: E-cond, model, quantile, n, seed}"""
+    """case: {part: E-cond, model, quantile, n, seed[, dim, q_tz]}; dim 1 (default): Tz given Hs at its `quantile`;
+    dim 0: Hs given Tz, Tz at the conditional q_tz-quantile given the Hs `quantile`"""
     h = HsS(case["model"])
     base, t, _ = h.build(precision_factor=0.1, random_state=None)
     q, n, seed = case["quantile"], case["n"], case["seed"]
+    dim = case.get("dim", 1)
     hs = float(h.hs_icdf(q))
+    if dim == 1:
+        given, what = hs, f"Hs = {hs!r} (quantile {q})"
+        line = lambda x: h.joint_pdf_hs_tz(hs, x)
+        cdf = lambda x: h.tz_cdf_given_hs(x, hs)
+        ref_name = "the exact conditional cdf 1 - G_S|hs(F hs/t^2)"
+    else:
+        given = cond_q(h, hs, case["q_tz"])
+        what = f"Tz = {given!r} (conditional {case['q_tz']}-quantile given the Hs {q}-quantile)"
+        line = lambda x: h.joint_pdf_hs_tz(x, given)
+        cdf = h.hs_cdf_given_tz_table(given)
+        ref_name = "the conditional cdf of Hs given Tz (closed-form joint density integrated along hs)"
     ck.case(case, nontrivial=True)
     ck.count("part=E-conditional")
-    ck.count(f"E_quantile={q}")
-    sig = cond_signature(q)
-    pre = probe_sampler(t, 1, hs)
+    ck.count(f"E_quantile={q}" + ("" if dim == 1 else "(Hs given Tz)"))
+
+    def no_sample(detail):
+        # nothing (or too little) accepted: known only where the documented search explains it - its x_max lies below
+        # (practically) all of the conditional's mass
+        xm = ref_xmax(h, hs, line)
+        inside = float(cdf(xm))
+        expl = "none-below-mass" if inside < 1e-3 else "no sample although the sampling interval holds conditional mass"
+        ck.fail(cond_signature(q, what=expl, dim=dim), case,
+                f"{what}: {detail}; the documented search gives x_max = {xm!r} with exact conditional mass {inside:.3e} below it")
+
+    pre = probe_sampler(t, dim, given)
     if pre:
-        ck.fail(sig, case, f"Hs = {hs!r} (quantile {q}): conditional_sample(200, 1, Hs): {pre} (conditional_icdf then returns 0)")
+        no_sample(f"conditional_sample(200, {dim}, given): {pre} (conditional_icdf then returns 0)")
         return
-    impl = run_conditional_sample(t, n, 1, hs, seed, 100)
+    impl = run_conditional_sample(t, n, dim, given, seed, 100)
     eps = dkw_eps(n)
     if impl["sample"] is None:
-        ck.fail(sig, case, f"Hs = {hs!r} (quantile {q}): {impl['error']} - no sample at all (conditional_icdf then returns 0)")
+        no_sample(f"{impl['error']} - no sample at all (conditional_icdf then returns 0)")
         return
     s = impl["sample"]
     if impl["maxiter_warn"] or len(s) != n:
-        ck.fail(sig, case, f"Hs = {hs!r} (quantile {q}): only {len(s)} of {n} values (MaxIterationWarning)")
+        no_sample(f"only {len(s)} of {n} values (MaxIterationWarning)")
         return
-    u = h.tz_cdf_given_hs(s, hs)
+    u = np.asarray(cdf(s), dtype=float)
     d = ks_uniform(u)
     ck.hyp_checked += 1
-    ck.extra.setdefault("ks_conditional", {})[f"{case['model']['kind']}@{q}"] = round(d, 5)
+    ck.extra.setdefault("ks_conditional", {})[f"{case['model']['kind']}@{q}" + ("" if dim == 1 else "/Hs|Tz")] = round(d, 5)
     if d > eps:
         # is the sample exactly the conditional truncated at the x_max of the documented search? (then the only thing
         # wrong is that the search stops at the first candidate INSIDE the region with density above the threshold)
-        xm = ref_xmax(h, hs)
-        mass = 1.0 - float(h.tz_cdf_given_hs(xm, hs))
+        xm = ref_xmax(h, hs, line)
+        mass = 1.0 - float(cdf(xm))
         d_cut = ks_uniform(np.minimum(u / (1.0 - mass), 1.0)) if mass < 1 else 1.0
-        cut = q < 0.999 and mass > 0 and d_cut <= eps and s.max() <= xm
-        ck.fail(cond_signature(q, cut), case,
-                f"Hs = {hs!r} (quantile {q}): KS distance between {n} conditional samples of Tz and the exact "
-                f"conditional cdf 1 - G_S|hs(F hs/t^2) is {d:.4f} > {eps:.4f}; sample range [{s.min():.3f}, {s.max():.3f}], "
-                f"exact 0.001/0.999 quantiles [{cond_q(h, hs, 0.001):.3f}, {cond_q(h, hs, 0.999):.3f}]; the documented search gives "
+        cut = mass > 0 and d_cut <= eps and s.max() <= xm
+        ck.fail(cond_signature(q, cut, dim=dim), case,
+                f"{what}: KS distance between {n} conditional samples and {ref_name} is {d:.4f} > {eps:.4f}; sample range "
+                f"[{s.min():.3f}, {s.max():.3f}]; the documented search gives "
                 f"x_max = {xm!r} with exact conditional mass {mass:.4f} above it; KS to the conditional truncated there {d_cut:.4f}")
         return
     # repeatability and the thin wrappers (bulk only: cheap)
-    again = run_conditional_sample(t, n, 1, hs, seed, 100)["sample"]
+    again = run_conditional_sample(t, n, dim, given, seed, 100)["sample"]
     if again is None or not np.array_equal(again, s):
         ck.fail({"entry": SIG_COND, "predicate": "same_random_state_reproduces"}, case, "two calls with the same seed differ")
-    if case.get("wrappers"):
-        xq = np.array([cond_q(h, hs, 0.3), cond_q(h, hs, 0.9)])
-        with np.errstate(all="ignore"), warnings.catch_warnings():
-            warnings.simplefilter("ignore")
-            pc = np.asarray(t.conditional_cdf(xq, 1, np.array([[hs], [hs]]), random_state=seed), dtype=float)
-            xi = np.asarray(t.conditional_icdf(np.array([0.3, 0.9]), 1, np.array([[hs], [hs]]), random_state=seed), dtype=float)
+    if case.get("wrappers") and dim == 1:
+        sig = cond_signature(q)
         e5 = dkw_eps(100000)
-        if not (np.abs(pc - np.array([0.3, 0.9])) <= e5).all():
-            ck.fail({"entry": "MultivariateModel.conditional_cdf", "predicate": "matches_exact_conditional", "input_class": sig["input_class"]},
-                    case, f"conditional_cdf at the exact 0.3/0.9 quantiles given Hs={hs!r}: {pc.tolist()}")
-        pi = h.tz_cdf_given_hs(xi, hs)
-        for p_, v in zip((0.3, 0.9), pi):
-            lo, hi = quantile_band(100000, p_)
-            if not (lo <= v <= hi):
-                ck.fail({"entry": "MultivariateModel.conditional_icdf", "predicate": "matches_exact_conditional", "input_class": sig["input_class"]},
-                        case, f"conditional_icdf({p_}) given Hs={hs!r} has exact conditional probability {v!r}, outside [{lo:.5f}, {hi:.5f}]")
+        q30, q90 = cond_q(h, hs, 0.3), cond_q(h, hs, 0.9)
+        # the evaluation points as float ndarray, as Python list, and integer-valued with an integer dtype (periods in
+        # whole seconds); the probabilities as ndarray and as list
+        x_int = np.array(sorted({int(math.ceil(q30)), int(math.ceil(q90)) + 1}), dtype=np.int64)
+        variants = [("float ndarray", np.array([q30, q90]), np.array([0.3, 0.9])),
+                    ("list", [q30, q90], np.array([0.3, 0.9])),
+                    ("integer ndarray", x_int, np.asarray(h.tz_cdf_given_hs(x_int.astype(float), hs), dtype=float))]
+        for name, xq, want in variants:
+            g = np.array([[hs]] * len(want))
+            ck.count("E_conditional_cdf_x_as=" + name)
+            try:
+                with np.errstate(all="ignore"), warnings.catch_warnings():
+                    warnings.simplefilter("ignore")
+                    pc = np.asarray(t.conditional_cdf(xq, 1, g, random_state=seed), dtype=float)
+                ok = pc.shape == want.shape and bool((np.abs(pc - want) <= e5).all())
+                detail = f"{pc.tolist()}"
+            except Exception as e:  # noqa: BLE001
+                ok, detail = False, f"{type(e).__name__}: {e}"
+            if not ok:
+                cls = sig["input_class"] + ("" if name == "float ndarray" else f"; x passed as {name}")
+                ck.fail({"entry": "MultivariateModel.conditional_cdf", "predicate": "matches_exact_conditional", "input_class": cls},
+                        case, f"conditional_cdf(x = {np.asarray(xq).tolist()} ({name}), 1, given Hs={hs!r}) = {detail}, exact "
+                              f"conditional probabilities {want.tolist()} (Monte-Carlo bound {e5:.4f})")
+        for name, pq in (("ndarray", np.array([0.3, 0.9])), ("list", [0.3, 0.9])):
+            ck.count("E_conditional_icdf_p_as=" + name)
+            try:
+                with np.errstate(all="ignore"), warnings.catch_warnings():
+                    warnings.simplefilter("ignore")
+                    xi = np.asarray(t.conditional_icdf(pq, 1, np.array([[hs], [hs]]), random_state=seed), dtype=float)
+                pi = h.tz_cdf_given_hs(xi, hs)
+                err = None
+            except Exception as e:  # noqa: BLE001
+                pi, err = [], f"{type(e).__name__}: {e}"
+            cls = sig["input_class"] + ("" if name == "ndarray" else f"; p passed as {name}")
+            if err:
+                ck.fail({"entry": "MultivariateModel.conditional_icdf", "predicate": "matches_exact_conditional", "input_class": cls}, case, err)
+            for p_, v in zip((0.3, 0.9), pi):
+                lo, hi = quantile_band(100000, p_)
+                if not (lo <= v <= hi):
+                    ck.fail({"entry": "MultivariateModel.conditional_icdf", "predicate": "matches_exact_conditional", "input_class": cls},
+                            case, f"conditional_icdf({p_}) given Hs={hs!r} has exact conditional probability {v!r}, outside [{lo:.5f}, {hi:.5f}]")
 
 
 def _wind_alpha(x, a=2.0, b=100.0):
@@ -1052,7 +1439,11 @@ def corpus_cases():
 
 def dispatch(ck, case):
     part = case["part"]
-    if part == "B":
+    if part == "B" and case.get("gen") == "stub-iform":
+        process_stub_iform(ck, None, given_case=case)
+    elif part == "F-iform":
+        process_sizes_iform(ck, None, given_case=case)
+    elif part == "B":
         process_stub(ck, case)
     elif part == "D":
         process_replay(ck, case)
@@ -1066,6 +1457,8 @@ def dispatch(ck, case):
         process_iform(ck, case)
     elif part == "A":
         process_transforms(ck, case.get("grid", 40))
+    elif part == "F":
+        process_sizes(ck, case)
     else:
         raise KeyError(part)
 
@@ -1077,12 +1470,27 @@ def main(ck):
                "round trips, Jacobian vs central differences; (B) real TransformedModel over an exact stub base model (n_dim 2/3, "
                "stub and shipped triple) bit-exact vs the composition model; (D) conditional_sample replays (stub pdf computed by the "
                "model, shipped families via TABLE pdf; n 10..1e4, max_iter 1..100, all dims, conditioning quantiles up to 1-1e-6) "
-               "bit-exact vs the sampler model; (E) statistics with distribution-free bounds at 1e-12; non-trivial = at least 2 "
+               "bit-exact vs the sampler model; (F) sample sizes / random_state / conditioning values requested by marginal_icdf, "
+               "conditional_icdf, conditional_cdf and by IFORMContour from recorder-stubbed samplers: probabilities as scalar / list / "
+               "ndarray with p_small down to 1e-7, precision_factor in [0.1, 1] passed by keyword / position / default, every dim of "
+               "2- and 3-D models, random_state None / 0 / int / Generator, vs Model/McSize.lean; (E) statistics with distribution-free "
+               "bounds at 1e-12: conditioning quantiles 0.01 .. 1-1e-6, Tz given Hs and Hs given Tz, wrappers with ndarray / list / "
+               "integer x; non-trivial = at least 2 "
                "points / n >= 10; distinct by SHA1 of the case")
     ck.assumptions = ["numpy Generator streams are reproducible and uniform(low, high, size) is consumed in call order",
                       "DKW / Hoeffding / order-statistic (Beta) bounds at error probability 1e-12 per comparison",
                       "reference conditional cdf of Tz given Hs: 1 - G_S|hs(F hs/t^2) with the closed-form exponentiated Weibull cdf"]
     ck.partial = {
+        "Monte-Carlo sample sizes": "the sizes requested by marginal_icdf / conditional_icdf / conditional_cdf are compared "
+        "with Model/McSize.lean on recorder-stubbed samplers (part F; theorems marginalN_exceedances, condN_bounds, ...); a sample "
+        "of 1e7 points is never drawn, the Monte-Carlo agreement itself is observed at precision_factor 0.1 only",
+        "far tail": "conditioning quantiles >= 0.999 fail on the unchanged code (known findings) in exactly two ways: sample = "
+        "conditional truncated at the search's x_max; nothing accepted with the search's x_max below the conditional's mass. "
+        "Any other failure there is reported",
+        "IFORM random_state": "iform_seeded_reproducible is rfl on an abstract 2-step model; that the code hands the model's "
+        "random_state (0, int, Generator) to every Monte-Carlo step is observed (recorders) per run",
+        "TransformedModel.fit / 3-D IFORM": "fit: correspondence only (transform(data) reaches the base model); a 3-D IFORM of a "
+        "TransformedModel is outside the quantifier and not checked (its step for dimension 1 reads an uninitialised column)",
         "push-forward density integrates to one": "Gauss-Legendre quadrature of the real pdf per run (Mathlib has no ready change of variables at acceptable cost)",
         "cdf equals the empirical cdf of its own samples": "nquad cdf vs 1-D exact reference; ecdf within Hoeffding/DKW bounds",
         "samples follow the push-forward": "KS of Hs marginal and of the PIT of Tz|Hs through the exact conditional",
@@ -1098,15 +1506,20 @@ def main(ck):
     for _ in range(400 if thorough else 60):
         process_stub(ck, make_stub_case(rng))
     process_stub_cached_sample(ck, rng)
-    if ck.failures or ck.divergences:
+    stop_after_ab = bool(ck.failures or ck.divergences)
+    for case in gen_size_cases(rng, 600 if thorough else 120):
+        process_sizes(ck, case)
+    for _ in range(30 if thorough else 6):
+        process_sizes_iform(ck, rng)
+    if stop_after_ab:
         # a transform / Jacobian / composition that is already wrong makes the Monte-Carlo parts meaningless
         # (and, with a density that accepts nothing, very slow): report what was found
         ck.extra["stopped_after"] = "A/B (failure found; Monte-Carlo parts skipped)"
         return
     for case in corpus_cases():
         dispatch(ck, case)
-    for _ in range(4 if thorough else 2):
-        process_stub_iform(ck, rng)
+    for i in range(4 if thorough else 2):
+        process_stub_iform(ck, rng, rs=0 if i == 0 else None)  # the boundary seed 0 (falsy, legitimate) every run
     # (D)
     for case in gen_replay_cases(rng, 500 if thorough else 90, 120 if thorough else 30, thorough):
         process_replay(ck, case)
@@ -1116,9 +1529,13 @@ def main(ck):
     if thorough:
         specs = [predef_hss("windmeier"), predef_hss("nonzero")] + [random_hss(rng) for _ in range(10)]
         for spec in specs:
-            for i, q in enumerate((0.5, 0.9, 0.99, 0.999, 0.9999, 1 - 1e-6)):
+            for i, q in enumerate((0.5, 0.9, 0.99, 0.999, 0.9999, 1 - 1e-6, 0.01, 0.05, 0.2)):
                 process_conditional_stat(ck, {"part": "E-cond", "model": spec, "quantile": q, "n": 100000 if q < 0.99999 else 2000,
                                               "seed": int(rng.integers(0, 2 ** 31)), "wrappers": i == 0})
+            # the other direction: Hs given Tz (dim 0)
+            for qh, qt in ((0.5, 0.5), (0.9, 0.2), (0.05, 0.8)):
+                process_conditional_stat(ck, {"part": "E-cond", "model": spec, "quantile": qh, "q_tz": qt, "dim": 0, "n": 100000,
+                                              "seed": int(rng.integers(0, 2 ** 31))})
         for k6, spec in enumerate(specs[:6]):
             process_model_stat(ck, {"part": "E-model", "model": spec, "n": 100000,
                                     "seed": int(rng.integers(0, 2 ** 31)) if k6 else 0,  # boundary seed 0 once
@@ -1136,6 +1553,15 @@ def main(ck):
         for spec, q, wr in plan:
             process_conditional_stat(ck, {"part": "E-cond", "model": spec, "quantile": q, "n": 100000 if q < 0.99999 else 2000,
                                           "seed": int(rng.integers(0, 2 ** 31)), "wrappers": wr})
+        # narrow conditionals at low Hs, and the other direction (Hs given Tz, dim 0); own stream: the cases above keep
+        # the values they had before these were added
+        rng2 = np.random.default_rng([ck.seed, 16])
+        for spec, q in ((rnd, 0.05), (predef_hss(main_kind), 0.01), (random_hss(rng2), float(rng2.choice([0.02, 0.1, 0.2])))):
+            process_conditional_stat(ck, {"part": "E-cond", "model": spec, "quantile": q, "n": 100000,
+                                          "seed": int(rng2.integers(0, 2 ** 31))})
+        for spec, qh, qt in ((predef_hss(other), 0.5, 0.5), (rnd, float(rng2.choice([0.1, 0.9])), float(rng2.choice([0.2, 0.8])))):
+            process_conditional_stat(ck, {"part": "E-cond", "model": spec, "quantile": qh, "q_tz": qt, "dim": 0, "n": 100000,
+                                          "seed": int(rng2.integers(0, 2 ** 31))})
         # the model statistics run with the boundary seed 0 (falsy in Python, legitimate as a seed) every time
         rng.integers(0, 2 ** 31)
         process_model_stat(ck, {"part": "E-model", "model": predef_hss(other), "n": 100000, "seed": 0,
